@@ -149,8 +149,10 @@ class Graph(object):
         if isinstance(other, Graph):
             new = set(other.triples) - set(self.triples)
             self.triples.extend(t for t in other.triples if t in new)
-            for t in new:
-                if t in other.epidata:
+            # iterate the triples, not the set, so the order of the
+            # epigraphical data does not depend on the hash seed
+            for t in other.triples:
+                if t in new and t in other.epidata:
                     self.epidata[t] = list(other.epidata[t])
             self.epidata.update(other.epidata)
             return self
